@@ -668,6 +668,44 @@ func runC02(c *core.Ctx) {
 		}
 	}
 
+	c.Rule("C02.strcontent", "the decoder reads back every text string the encoder can write: in the DAG-CBOR token consumers no branch depends on the result of a function applied to the content of the token's text (Token.Str) - only on its length (budget) and on its membership in the set of keys seen - because the encoder writes keys and strings of arbitrary bytes verbatim and what it writes must decode to the same value", 1)
+	{
+		nsc := 0
+		for _, tc := range findTokenConsumers(p, "codec/dagcbor") {
+			nsc++
+			bad := ""
+			pos := tc.fn.Pos()
+			for _, b := range core.RegionOf(tc.fn).Blocks() {
+				ifi := core.BlockIf(b)
+				if ifi == nil {
+					continue
+				}
+				for w := range core.BackSlice(ifi.Cond, core.SliceOpts{Region: core.RegionOf(tc.fn), ThroughCallsIf: func(cl *ssa.Call) bool {
+					_, isB := cl.Call.Value.(*ssa.Builtin)
+					return !isB && cl.Call.StaticCallee() != nil && core.FuncPkg(cl.Call.StaticCallee()) != core.FuncPkg(tc.fn)
+				}}) {
+					cl, ok := w.(*ssa.Call)
+					if !ok || cl.Call.StaticCallee() == nil || core.FuncPkg(cl.Call.StaticCallee()) == core.FuncPkg(tc.fn) {
+						continue
+					}
+					for _, a := range cl.Call.Args {
+						if tc.fieldLoad(a, "Str") {
+							bad = "a branch depends on " + cl.Call.StaticCallee().String() + " applied to the token's text"
+							pos = ifi.Cond.Pos()
+							if !pos.IsValid() {
+								pos = cl.Pos()
+							}
+						}
+					}
+				}
+			}
+			c.Check(bad == "", core.FuncKey(tc.fn)+"#text-content-not-judged", p.Pos(pos), "no branch judges the content of a text string", bad+": strings or keys the encoder writes verbatim (any bytes) can be rejected or altered on the way back, so encode-then-decode is no longer the identity")
+		}
+		if nsc == 0 {
+			c.Undecided("codec/dagcbor#token-consumers", "-", "no token consumer found")
+		}
+	}
+
 	c.Rule("C02.lengthtable", "the head-size table used by EncodedLength equals the CBOR head boundaries: values below 24 take 1 byte, below 2^8 2, below 2^16 3, below 2^32 5, otherwise 9; uintLength picks the first row whose bound is strictly greater", 1)
 	checkLengthTable(c, rel)
 
